@@ -1,0 +1,12 @@
+//go:build !verif
+
+package cert
+
+import "github.com/relab/hotstuff"
+
+// verifOrderQCs is the identity in normal builds. With the verif build tag it puts the QCs of an
+// aggregate QC into signer order, so that a deterministic simulator gets the same result from the
+// same aggregate in every run (see verif_on.go).
+func verifOrderQCs(_ map[hotstuff.ID]hotstuff.QuorumCert, qcs []hotstuff.QuorumCert) []hotstuff.QuorumCert {
+	return qcs
+}
